@@ -100,6 +100,10 @@ impl<'a, H> PacketBuffer<'a, H> {
                 // the padding necessary to circle around to the beginning of the
                 // ring buffer.
                 return Err(Full);
+            } else if self.metadata_ring.window() < 2 {
+                // The padding needs a metadata slot of its own; do not leave
+                // a dangling padding record behind a refused packet.
+                return Err(Full);
             } else {
                 // Add padding to the end of the ring buffer so that the
                 // contiguous window is at the beginning of the ring buffer.
@@ -149,6 +153,10 @@ impl<'a, H> PacketBuffer<'a, H> {
                 // and is larger than the contiguous window will be after adding
                 // the padding necessary to circle around to the beginning of the
                 // ring buffer.
+                return Err(Full);
+            } else if self.metadata_ring.window() < 2 {
+                // The padding needs a metadata slot of its own; do not leave
+                // a dangling padding record behind a refused packet.
                 return Err(Full);
             } else {
                 // Add padding to the end of the ring buffer so that the
